@@ -1,17 +1,30 @@
 #!/usr/bin/env python3
-"""Render known_findings.json as the markdown table of DESIGN.md §10."""
+"""Render known_findings.json as the two markdown tables of DESIGN.md §10 (repaired / open)."""
 import json, collections
 k = json.load(open('/verif/known_findings.json'))
-rows = collections.OrderedDict()
+fixed = collections.OrderedDict()
+opened = []
 for e in k:
-    key = e.get('commit')
-    rows.setdefault(key, {'props': [], 'what': e['what'], 'status': e['status']})
-    if e['property'] not in rows[key]['props']:
-        rows[key]['props'].append(e['property'])
+    if e['status'] == 'fixed':
+        key = e.get('commit')
+        fixed.setdefault(key, {'props': [], 'what': e['what']})
+        if e['property'] not in fixed[key]['props']:
+            fixed[key]['props'].append(e['property'])
+    else:
+        opened.append(e)
 print("| property | commit | what failed (input / history) |")
 print("|----------|--------|-------------------------------|")
-for c, r in rows.items():
+for c, r in fixed.items():
     what = r['what'].replace('|', '\\|')
     print(f"| {', '.join(r['props'])} | {c} | {what} |")
 print()
-print(f"{len(rows)} repairs, {len(k)} recorded fingerprints.")
+print(f"{len(fixed)} repairs, {sum(1 for e in k if e['status'] == 'fixed')} recorded fingerprints.")
+print()
+print("Open findings (reported as `KNOWN-FINDING`, exit 0; anything else of the same property is still a violation):")
+print()
+print("| property | fingerprint | what fails | why it is recorded and not repaired |")
+print("|----------|-------------|------------|--------------------------------------|")
+for e in opened:
+    what = e['what'].replace('|', '\\|')
+    why = e['record'].split('not repaired:')[-1].strip().replace('|', '\\|') if 'not repaired:' in e['record'] else ''
+    print(f"| {e['property']} | `{e['fingerprint']}` | {what} | {why} |")
